@@ -20,3 +20,22 @@ Proof. vm_compute. reflexivity. Qed.
 (** the effect configuration of the model instantiated from the source is the specified one *)
 Lemma tie_fxcfg : fxcfg_of gen_effects = spec_fx.
 Proof. vm_compute. reflexivity. Qed.
+
+(** package-level state: the variables that exist, and the only function that writes one
+    (registration of profiles, which is not part of the read side) *)
+Lemma tie_pkg_vars : gen_pkg_vars =
+  [("psatoken", "CertificationReferenceP1RE", "call:regexp.MustCompile"); ("psatoken", "CertificationReferenceP2RE", "call:regexp.MustCompile");
+   ("psatoken", "ErrClaimNotInProfile", "call:fmt.Errorf"); ("psatoken", "ErrFieldNotInProfile", "call:fmt.Errorf");
+   ("psatoken", "ErrMandatoryClaimMissing", "call:fmt.Errorf"); ("psatoken", "ErrMandatoryFieldMissing", "call:fmt.Errorf");
+   ("psatoken", "ErrMissingMandatory", "call:errors.New"); ("psatoken", "ErrMissingOptional", "call:errors.New");
+   ("psatoken", "ErrNotInProfile", "call:errors.New"); ("psatoken", "ErrOptionalClaimMissing", "call:fmt.Errorf");
+   ("psatoken", "ErrOptionalFieldMissing", "call:fmt.Errorf"); ("psatoken", "ErrWrongProfile", "call:errors.New");
+   ("psatoken", "ErrWrongSyntax", "call:errors.New");
+   ("psatoken", "dm", "call:initCBORDecMode"); ("psatoken", "dmError", "call:initCBORDecMode");
+   ("psatoken", "em", "call:initCBOREncMode"); ("psatoken", "emError", "call:initCBOREncMode");
+   ("psatoken", "profilesRegister", "composite");
+   ("encoding", "errEndOfStream", "call:errors.New"); ("encoding", "errNoProfile", "call:errors.New")]%string.
+Proof. vm_compute. reflexivity. Qed.
+
+Lemma tie_pkg_writes : gen_pkg_writes = [("psatoken", "registerProfileUnderName", "profilesRegister")]%string.
+Proof. vm_compute. reflexivity. Qed.
